@@ -321,6 +321,24 @@ def options(ctx, sg, lim):
                   sg.relpath, {'use_exact_steps': flag, 'make_exact_calls': n_exact},
                   'make_exact applied to base step and ratio iff use_exact_steps', 'use_exact_steps=%s' % flag,
                   key='exact-steps')
+    # ... and it is applied to the base step actually used, base_step * step_nom(x) (a product of two exactly representable
+    # numbers need not be one), and to the ratio
+    seen = []
+    mk = I.get_global('step_generators', 'make_exact')
+    I.on_call = lambda fn, args, kwargs, node, fr: seen.append(args[0]) if fn is mk and args else None
+    try:
+        nom = Poly.sym('nom')
+        ndarr.POSITIVE_ATOMS.add('nom')
+        g = Min(base_step=b, step_ratio=r, num_steps=3, step_nom=nom, use_exact_steps=True)
+        I.getattr(g, 'step_generator_function')(x, 'forward', 1, 2)
+    finally:
+        I.on_call = None
+        ndarr.POSITIVE_ATOMS.discard('nom')
+    got = sorted(repr(scalar(v)) for v in seen)
+    want = sorted([repr(b * nom), repr(r)])
+    rep.check(got == want, 'R-OPTIONS', 'step_generators.MinStepGenerator.step_generator_function', sg.relpath,
+              {'make_exact_arguments': got, 'expected': want}, 'make_exact(base_step * step_nom) and make_exact(step_ratio)',
+              'use_exact_steps=True, step_nom symbolic', key='exact-steps-argument')
     # check_num_steps / num_extrap
     for check, given, extrap, want in ((True, 1, 0, 'min'), (False, 1, 0, 1), (True, 30, 5, 30), (True, None, 3, 'min+3'),
                                        (True, None, 0, 'min')):
